@@ -333,8 +333,21 @@ socket_recv_messages (NiceSocket *sock,
      * should cover the average size of HTTP response headers. Source:
      * http://dev.chromium.org/spdy/spdy-whitepaper */
     if (priv->recv_buf_fill == priv->recv_buf_length) {
-      priv->recv_buf_length = MAX (priv->recv_buf_length * 2, 1024);
-      priv->recv_buf = g_realloc (priv->recv_buf, priv->recv_buf_length);
+      gsize new_length = MAX (priv->recv_buf_length * 2, 1024);
+      guint8 *new_buf = g_malloc (new_length);
+
+      /* Linearise the (possibly wrapped) content while moving it. */
+      if (priv->recv_buf_fill > 0) {
+        gsize tail = MIN (priv->recv_buf_fill,
+            priv->recv_buf_length - priv->recv_buf_pos);
+
+        memcpy (new_buf, priv->recv_buf + priv->recv_buf_pos, tail);
+        memcpy (new_buf + tail, priv->recv_buf, priv->recv_buf_fill - tail);
+      }
+      g_free (priv->recv_buf);
+      priv->recv_buf = new_buf;
+      priv->recv_buf_length = new_length;
+      priv->recv_buf_pos = 0;
     }
 
     assert_ring_buffer_valid (priv);
